@@ -5,6 +5,7 @@ package main
 
 import (
 	"fmt"
+	"go/token"
 	"go/types"
 
 	"golang.org/x/tools/go/ssa"
@@ -235,5 +236,85 @@ func (c *Ctx) rulesC16buf() {
 	}
 	if n < 2 {
 		c.undecided(fmt.Sprintf("C16.buf: only %d hand-over/reset sites found", n))
+	}
+}
+
+// rulesC16back: moving the cursor backwards skips filtered-out transitions
+// backwards.
+func (c *Ctx) rulesC16back() {
+	c.rule("C16.back", "every hSetCursor1 call of the debugger whose new Cursor1 is the current CursorTx1 minus something (a move backwards) also sets FilterBack, or takes the position from hPrevTxIdx: without it hFilterTxCursor1 skips filtered-out transitions FORWARDS, so stepping back lands on the same or a later transition (forward-then-back no longer returns to the shown one)")
+	set := c.fn(pd + ":Debugger.hSetCursor1")
+	if set == nil {
+		return
+	}
+	var fC1, fFB *types.Var
+	if at := c.namedType(pd, "A"); at != nil {
+		if st, ok := at.Underlying().(*types.Struct); ok {
+			for i := 0; i < st.NumFields(); i++ {
+				switch st.Field(i).Name() {
+				case "Cursor1":
+					fC1 = st.Field(i)
+				case "FilterBack":
+					fFB = st.Field(i)
+				}
+			}
+		}
+	}
+	if fC1 == nil || fFB == nil {
+		c.undecided("C16.back: debugger.A has no Cursor1 / FilterBack fields")
+		return
+	}
+	n, nBack := 0, 0
+	for _, f := range c.Funcs {
+		if topFunc(f).Pkg == nil || relPkg(topFunc(f).Pkg.Pkg.Path()) != pd {
+			continue
+		}
+		for i, s := range c.sitesIn(f, funcKey(set)) {
+			n++
+			args := s.Common().Args
+			lit := args[len(args)-1] // *A
+			al, ok := lit.(*ssa.Alloc)
+			if !ok {
+				continue
+			}
+			var cur ssa.Value
+			fb := false
+			for _, r := range *al.Referrers() {
+				fa, ok := r.(*ssa.FieldAddr)
+				if !ok || fa.Referrers() == nil {
+					continue
+				}
+				for _, rr := range *fa.Referrers() {
+					st, ok := rr.(*ssa.Store)
+					if !ok || st.Addr != ssa.Value(fa) {
+						continue
+					}
+					switch fieldOf(fa) {
+					case fC1:
+						cur = st.Val
+					case fFB:
+						if b, ok := constBool(st.Val); ok && b {
+							fb = true
+						}
+					}
+				}
+			}
+			if cur == nil {
+				continue
+			}
+			back := false
+			if bo, ok := cur.(*ssa.BinOp); ok && bo.Op == token.SUB && loadOfField(bo.X) != nil && loadOfField(bo.X).Name() == "CursorTx1" {
+				back = true
+			}
+			if !back {
+				continue
+			}
+			nBack++
+			c.check(fb, "C16.back", fmt.Sprintf("%s: backwards hSetCursor1%s filters backwards", funcKey(f), nth(i)), s.Pos(),
+				"Cursor1 = "+render(cur)+" without FilterBack: a filtered-out transition right before the shown one sends the cursor forwards again")
+		}
+	}
+	if n < 5 || nBack < 1 {
+		c.undecided(fmt.Sprintf("C16.back: %d hSetCursor1 sites, %d backwards moves found", n, nBack))
 	}
 }
